@@ -39,6 +39,9 @@ CORPUS = [
               "fn main() { println(compute(1, 2, 3)); for _round in 0..2 { let idle = 1; let _quiet = 2; let lazy = 3; } { let _u = 0; let unused_a = 4; let unused_b = 5; } }",
       "lib": "let _hidden = 1;\nlet forgotten = 2;\npub fn noop(_a: int, b: int) { let _c = 1; let d = 2; }\nfn main() { }"}, "unused-next-to-underscore"),
 ] + [({"main": src}, "match-overlap") for src in families.overlapping_match()] + [
+    # copies of empty options (by-value spawn arguments) are written through: the next repetition starts from `none` again
+    ({"main": "fn w(id: int, l: [?int]) { println(\"before\", id, l); l[0] = ?id; l[1] = ?(id * 2); println(\"after\", id, l); }\n"
+              "fn main() { let a: [?int] = [none, none, none]; spawn w(1, a); time.sleep(0.03); spawn w(2, a); time.sleep(0.03); println(\"m\", a); }"}, "none-cells"),
     # a global range iterated in several functions and twice in a row (iteration state must not live in the shared value)
     ({"main": "let R = 0..4;\nfn a() -> int { let s = 0; for i in R { s += i; if i == 1 { break; } } s }\nfn b() -> int { let s = 0; for i in R { s += i; } s }\n"
               "fn main() { println(a(), b(), a(), b()); for i in R { for j in R { print(i * 10 + j, \"\"); } } println(\"\"); }"}, "global-range"),
